@@ -203,3 +203,56 @@ Lemma cross_mode_served :
   run_ops (wired true 100000) store0 (cross_mode true false) = cross_mode_expected /\
   run_ops (wired false 100000) store0 (cross_mode false true) = cross_mode_expected.
 Proof. split; vm_compute; reflexivity. Qed.
+
+(* max_size_hard_limit on the front end: a cache of 3 blocks with the limit one block above; three
+   one-block blobs fill it, a fourth is admitted and pushes the oldest into the deletion backlog (the
+   remover is held back: no FDrain); now currentSize + backlog = limit and every write path refuses
+   with the class it derives from 507 (SpliceBlob: Unknown, FetchBlob: NOT_FOUND — as the code is),
+   changing nothing; reads go on; after the remover ran the same upload is admitted *)
+Definition hl_fill : list fop :=
+  [FInit 12288 16384;
+   FBatchUpdate [mkBU false hA 4096 CIdentity (good 1 4096) "r1"];
+   FBatchUpdate [mkBU false hB 2048 CIdentity (good 2 2048) "r2"];
+   FBatchUpdate [mkBU false hC 2048 CIdentity (good 3 2048) "r3"];
+   FBatchUpdate [mkBU false hD 4096 CIdentity (good 4 4096) "r4"];
+   FStats].
+Definition hl_refused : list fop :=
+  [FHttpPut true hE 4096 XAbsent CeNone (good 5 4096) "r5";
+   FHttpPut true hE 300 (XVal 4096) CeZstd (good 5 4096) "r6";
+   FHttpPutAC hF 20 true 20 "r7";
+   FBatchUpdate [mkBU false hE 4096 CIdentity (good 5 4096) "r8"; mkBU false hF 4096 CZstd (good 6 4096) "r9"];
+   FBsWrite (WN false hE 4096) [mkWMsg true 0 4000 false; mkWMsg true 4000 96 true] false (good 5 4096) "r10";
+   FBsWrite (WN true hE 4096) [mkWMsg true 0 300 true] false (good 5 4096) "r11";
+   FUpdateAR h4 5 true [] no_inl no_inl 30 "r12";
+   FUpdateAR h4 5 true [] (mkInl true (Some (h5, 100)) h5 (good 7 100) "r13") no_inl 130 "r14";
+   FSplice 1 [mkChunk false hB 2048; mkChunk false hC 2048] (Some (h2, 4096)) "" true 8 "r15";
+   FFetch (Some h3) [mkUp true 4096 (good 9 4096) h3 "r16"];
+   FStats].
+Definition hl_reads : list fop :=
+  [FHttpGet hD false; FBatchRead [(hB, 2048)] true; FBsRead (RN false hC 2048) 1 0 [2047]; FHttpHead hD;
+   FFindMissing [(hA, 4096); (hE, 4096); (h2, 4096); (h3, 4096); (h5, 100)]; FHttpHead h4; FStats].
+Definition hl_retry : list fop :=
+  [FDrain; FStats; FHttpPut true hE 4096 XAbsent CeNone (good 5 4096) "r17"; FStats].
+
+Definition hl_expected : list fobs :=
+  [OSt SOk; OSts SOk [SOk]; OSts SOk [SOk]; OSts SOk [SOk]; OSts SOk [SOk]; OStats 12288 0 3 4096]
+  ++ [OSt (SErr EInsufficient); OSt (SErr EInsufficient); OSt (SErr EInsufficient);
+      OSts SOk [SErr EInsufficient; SErr EInsufficient];
+      OSt (SErr EInsufficient); OSt (SErr EInsufficient); OSt (SErr EInsufficient); OSt (SErr EInsufficient);
+      OSt (SErr EInternal); OFetched (SErr ENotFound) None; OStats 12288 0 3 4096]
+  ++ [ORd (mkRd SOk (Some 4096) 4 4096); ORds SOk [mkRd SOk (Some 2048) 2 2048]; ORd (mkRd SOk None 3 2047); OHead SOk 4096;
+      OMiss [(hA, 4096); (hE, 4096); (h2, 4096); (h3, 4096); (h5, 100)]; OHead (SErr ENotFound) (-1); OStats 12288 0 3 4096]
+  ++ [OSt SOk; OStats 12288 0 3 0; OSt SOk; OStats 12288 0 3 2048].   (* the backlog counts the evicted file's own 2048 bytes *)
+
+Lemma hard_limit_scenario :
+  run_ops (wired false 100000) store0 (hl_fill ++ hl_refused ++ hl_reads ++ hl_retry) = hl_expected.
+Proof. vm_compute. reflexivity. Qed.
+
+(* with the limit off the same uploads are admitted *)
+Lemma hard_limit_off_scenario :
+  run_ops (wired false 100000) store0
+    ([FInit 12288 0] ++ tl hl_fill ++ [FHttpPut true hE 4096 XAbsent CeNone (good 5 4096) "r5";
+                                       FBsWrite (WN true hF 4096) [mkWMsg true 0 300 true] false (good 6 4096) "r6"; FStats])
+  = [OSt SOk; OSts SOk [SOk]; OSts SOk [SOk]; OSts SOk [SOk]; OSts SOk [SOk]; OStats 12288 0 3 4096;
+     OSt SOk; OSt SOk; OStats 12288 0 3 8192].
+Proof. vm_compute. reflexivity. Qed.
